@@ -38,6 +38,9 @@ THEOREMS = [
     "flipComponent_comm",
     "flipComponent_skeleton",
     "flipComponent_weight",
+    "flipComponentT_clusterMove",
+    "flipComponentT_involutive",
+    "flipComponentT_comm",
     "clusterMove_shapeOk",
     # step B: the exact executable model lands in the relation
     "clusterUpdate_is_clusterMove",
